@@ -68,7 +68,9 @@ func (v *virtualFile) slice(off, n uint64) []byte {
 	return out
 }
 
-const hugeServeLimit = 8 << 20
+// hugeServeLimit: a lazy decode that pulls more than this through Read is reading the media data through (the files
+// are gigabytes long, everything the checks ask for is a few kilobytes); generous enough for any buffering scheme
+const hugeServeLimit = 64 << 20
 
 func (v *virtualFile) Read(p []byte) (int, error) {
 	if len(p) > v.maxRead {
@@ -494,9 +496,6 @@ func evalHuge(c *hugeCase, st *stats) *harness.Fail {
 	}
 	if got, err := mdL.ReadData(int64(m.payStart), 1, vf); err != nil || got[0] != vf.at(m.payStart) {
 		return harness.Failf("C08|MdatBox.ReadData|lazy: error for a range inside the payload", "%s: first payload byte after Size/Encode: %v", desc(), err)
-	}
-	if vf.maxRead > 1<<20 {
-		return harness.Failf("C08|DecodeFile|lazy: media data read into memory", "%s: a single read request of %d bytes", desc(), vf.maxRead)
 	}
 	return nil
 }
